@@ -120,6 +120,44 @@ def check_preprocess(run, rng, quick):
         run.correspondence_break("Model.Preprocess.preprocess disagrees with Wtp.preprocess_text", {"text": texts[b]}, impl=outs[b])
 
 
+def check_end_to_end(run, rng, quick):
+    """The chained models of c15_text_comments_and_nowiki_end_to_end (preprocess, expander, finalize) against expand() on pages
+    of markup-free text, closed comments, nowiki elements and <nowiki/> tags."""
+    plain = ["word", " ", "\n", "a b", "x", "é", "1.", "-", "q,r", "\n\n"]
+    texts = []
+    for _ in range(300 if quick else 5000):
+        parts = []
+        for _ in range(rng.randint(1, 7)):
+            r = rng.random()
+            if r < 0.4:
+                parts.append(rng.choice(plain))
+            elif r < 0.6:
+                parts.append("<!--" + rng.choice([" c ", "", "{{x}}", "a\nb", "<nowiki>", "-- "]) + "-->")
+            elif r < 0.9:
+                parts.append("<nowiki>" + gen_c(rng) + "</nowiki>")
+            else:
+                parts.append(rng.choice(["<nowiki/>", "<nowiki />"]))
+        texts.append("".join(parts))
+    res = lib.run_impl("c15", [{"texts": texts[i:i + 150]} for i in range(0, len(texts), 150)], shards=lib.NCPU)
+    outs = [o for r in res for o in (r.get("outs") or [])]
+    cases, idx = [], []
+    for i, (t, o) in enumerate(zip(texts, outs)):
+        run.count(["end-to-end", t], "<nowiki>" in t, "end-to-end")
+        if isinstance(o["expand"], str):
+            cases.append("(%s, %s)" % (cstr(t), cstr(o["expand"].replace("<nowiki />", "<nowiki/>"))))
+            idx.append(i)
+    bad, errs = lib.coq_eval_failing(
+        "c15e", ["Base.Str", "Model.Preprocess", "Model.Expand", "Gen.GenData", "Proofs.NowikiEndProofs"], "str * str", cases,
+        "fun '(t, e) => match expand_page [] nowiki_map [] (mkopts true (mksel None None) false [] []) false 4000 "
+        "(encode_plain (preprocess t)) with Some o => str_eqb o e | None => false end", chunk=150)
+    for e in errs:
+        run.correspondence_break("model evaluation failed (end to end)", None, error=e)
+    for b in bad:
+        run.correspondence_break("the chained models (preprocess, expand, finalize) disagree with expand() on a page of text, "
+                                 "comments and nowiki", texts[idx[b]], impl=outs[idx[b]]["expand"][:300])
+    run.extra["end_to_end_pages_validated_against_impl"] = len(cases)
+
+
 def run(run):
     run.rule = ("(a) nowiki bodies c = 0-12 tokens from a 58-token wikitext alphabet (templates, links, tables, list markers, "
                 "headings, HTML, magic words, single markup characters; no '&', no closing tag) in 9 embedding contexts; "
@@ -144,6 +182,7 @@ def run(run):
     if rc != 0:
         run.correspondence_break("Model/Preprocess.v does not build", None, error=out[-1500:])
     check_preprocess(run, rng, run.tier == "quick")
+    check_end_to_end(run, rng, run.tier == "quick")
     n = 800 if run.tier == "quick" else 12000
     # ---- (a) nowiki
     cases_a = []
